@@ -34,17 +34,28 @@ def desc(v, depth=0):
     if isinstance(v, DictS):
         return "{" + ", ".join(f"{k!r}: {desc(x, depth + 1)}" for k, x in v.items.items()) + "}"
     if isinstance(v, Choice):
-        alts = []
-        for a in v.alts:
-            d = desc(a, depth + 1)
-            if d not in alts:
-                alts.append(d)
-        return alts[0] if len(alts) == 1 else "choice(" + " | ".join(alts) + ")"
+        return _choice_desc([(desc(a, depth + 1), l) for a, l in zip(v.alts, v.labels)])
     if isinstance(v, Top):
         return f"TOP({v.reason})"
     if isinstance(v, Obj):
         return f"<{v.cls}>"
     return f"<{type(v).__name__}>"
+
+
+def _choice_desc(pairs):
+    """[(description, label)] -> canonical text; equal descriptions merge their labels"""
+    merged = []
+    for d, l in pairs:
+        for m in merged:
+            if m[0] == d:
+                if l:
+                    m[1].append(l)
+                break
+        else:
+            merged.append((d, [l] if l else []))
+    if len(merged) == 1:
+        return merged[0][0]
+    return "choice(" + " | ".join(("[" + "|".join(sorted(set(ls))) + "] " if ls else "") + d for d, ls in merged) + ")"
 
 
 def flatten(v, path="", out=None, opt=False):
@@ -64,12 +75,7 @@ def flatten(v, path="", out=None, opt=False):
                 if k not in keys:
                     keys.append(k)
         for k in keys:
-            vals = []
-            for o in subs:
-                val = o.get(k, "<absent>")
-                if val not in vals:
-                    vals.append(val)
-            out[k] = vals[0] if len(vals) == 1 else "choice(" + " | ".join(vals) + ")"
+            out[k] = _choice_desc([(o.get(k, "<absent>"), l) for o, l in zip(subs, v.labels)])
         return out
     if isinstance(v, Obj) and v.cls == "Group":
         data = v.fields.get("data")
